@@ -130,11 +130,34 @@ func structTypes(name string) Def {
 		{Name: "a", Ty: arrOf(prim("byte"))},
 		{Name: "b", Ty: arrKw(prim("guid"))},
 		{Name: "c", Ty: mapOf("string", prim("date"))},
-		{Name: "d", Ty: arrOf(arrOf(prim("float32")))},
-		{Name: "e", Ty: mapOf("uint16", arrOf(prim("bool")))},
-		{Name: "f", Ty: arrOf(mapOf("int64", mapOf("guid", prim("float64"))))},
-		{Name: "g", Ty: arrKw(arrKw(prim("uint64")))},
 	}}
+}
+
+// deepTypes are type expressions with more than one array/map level, each
+// exercised as the only field of a struct and of a message.
+var deepTypes = []struct {
+	name string
+	ty   Ty
+}{
+	{"T[][]", arrOf(arrOf(prim("float32")))},
+	{"map[K,T[]]", mapOf("uint16", arrOf(prim("bool")))},
+	{"map[K,map[K,T]][]", arrOf(mapOf("int64", mapOf("guid", prim("float64"))))},
+	{"array[array[T]]", arrKw(arrKw(prim("uint64")))},
+	{"array[T[]]", arrKw(arrOf(prim("int32")))},
+	{"array[T][]", arrOf(arrKw(prim("int32")))},
+	{"map[K,array[T]]", mapOf("string", arrKw(prim("string")))},
+	{"map[K,T][]", arrOf(mapOf("byte", prim("int16")))},
+	{"T[][][]", arrOf(arrOf(arrOf(prim("uint8"))))},
+	{"array[map[K,T[]]]", arrKw(mapOf("guid", arrOf(prim("date"))))},
+}
+
+func deepTypeCase(i int) []Def {
+	t := deepTypes[i]
+	i1, v1 := symIdx()
+	return []Def{
+		{Kind: "struct", Name: "S", Fields: []Fld{{Name: "f", Ty: t.ty}, {Name: "g", Ty: prim("int32")}}},
+		{Kind: "message", Name: "M", Fields: []Fld{{Name: "f", Ty: t.ty, Index: i1, IdxV: v1}}},
+	}
 }
 
 func structRO(name string) Def {
@@ -165,6 +188,15 @@ func structDocs(name string) Def {
 	d.Fields[0].Doc = " fd " + printable(1)
 	d.Fields[1].Depr, d.Fields[1].DeprM = true, "old "+printable(1)
 	return d
+}
+
+// blockDocs: multi-line block comments inside the bodies of a struct, an enum and a message.
+func blockDocs() []Def {
+	st := structPlain("S")
+	st.Fields[0].BlockLines = []string{" first " + printable(1), " second", " "}
+	en := Def{Kind: "enum", Name: "E", Opts: []Opt{{Name: "A", Lit: []byte("1"), U: 1, S: 1, BlockLines: []string{"* star", " * more "}}, {Name: "B", Lit: []byte("2"), U: 2, S: 2}}}
+	ms := Def{Kind: "message", Name: "M", Fields: []Fld{{Name: "x", Ty: prim("int32"), Index: idx(1), IdxV: 1, BlockLines: []string{" one", "two"}, Doc: " and a line"}}}
+	return []Def{st, en, ms}
 }
 
 func messagePlain(name string) Def {
@@ -241,7 +273,7 @@ func byKind(k int, name string) Def {
 var enumBases = []string{"byte", "uint8", "uint16", "int16", "uint32", "int32", "uint64", "int64"}
 
 // nSingles is the number of single-definition cases of Case.
-const nSingles = 30
+const nSingles = 40
 
 // NCases is the number of schema cases.
 const NCases = nSingles + nKinds*nKinds
@@ -254,6 +286,9 @@ func Case(i int) (defs []Def, docs bool) {
 		p := i - nSingles
 		symOn = false
 		return []Def{byKind(p/nKinds, "Pa"), byKind(p%nKinds, "Qb")}, false
+	}
+	if i >= 30 && i < 40 {
+		return deepTypeCase(i - 30), false
 	}
 	switch i {
 	case 0:
@@ -302,6 +337,8 @@ func Case(i int) (defs []Def, docs bool) {
 		return []Def{structPlain("A"), messagePlain("B"), unionPlain("C"), enumPlain("D")}, false
 	case 28:
 		return []Def{constDef("go_package", "string", "\"github.com/x/y\""), structRO("S")}, false
+	case 29:
+		return blockDocs(), true
 	}
 	return []Def{enumTyped("E", "int64"), structOpStr("T")}, false
 }
